@@ -174,7 +174,8 @@ def _make_defs(seed, n_random, n_groups):
     rnd = []
     for k in range(n_random):
         trng = random.Random(rng.getrandbits(64))
-        t = gen.gen_trait(trng, f"R{k}", f"r{k}", max_methods=6)
+        # mixed-case second letters: byte order (`RB1` < `Ra0`) and case-insensitive order disagree for some pairs
+        t = gen.gen_trait(trng, ("Ra", "RB", "Rb")[k % 3] + str(k), f"r{k}", max_methods=6)
         nt = any(a.wrapped for m in t.methods for a in m.args) or any(m.ret.wrapped for m in t.methods)
         rnd.append(t)
         defs.append({"id": f"r{k}", "kind": "trait", "src": emit.trait_def(t).replace("#[cglue_trait]\n", "", 1), "nontrivial": nt, "label": "random",
